@@ -24,7 +24,11 @@ def _one_run(args):
     for st in steps:
         k = st.meta.get("kind", st.op.split()[0])
         kinds[k] = kinds.get(k, 0) + 1
-    return {"seed": seed, "ops": [s.op for s in steps], "lines": [s.line for s in steps], "dead": h.dead, "slowest": getattr(h, "slowest", 0.0),
+    # a datagram handed to a socket of the other address family (the kernel refuses it: it is lost).  With source checking on, every answer goes to
+    # the address a session is bound to or to the asker on the socket it came in by, so this can only be a wrong socket choice in the code; with -c
+    # a session may be reached over both families and the pinned tree itself answers a held query on the socket of the NEW query (DESIGN.md §8)
+    wrongfd = next((i for i, st in enumerate(steps) if g.check_ip and any(e[0] == "badfam" for e in st.events)), None)
+    return {"seed": seed, "ops": [s.op for s in steps], "lines": [s.line for s in steps], "dead": h.dead, "slowest": getattr(h, "slowest", 0.0), "wrongfd": wrongfd,
             "viol": m.viol, "stats": m.stats, "kinds": kinds, "check_ip": g.check_ip}
 
 
@@ -143,6 +147,11 @@ def run(chk, prop, which=None, runs=None, nsteps=None, gen_kw=None, extra_monito
             chk.violation("the server harness aborted (sanitizer or crash, rc=%s) on op: %s\n%s" % (rc, op[:200], err[-1500:]),
                           r["ops"] + [op], key="abort:" + (err.split("runtime error:")[-1].split("\n")[0].strip()[:80] if "runtime error" in err else "asan"))
             bad += 1
+        if r.get("wrongfd") is not None and not chk.violations:
+            i = r["wrongfd"]
+            chk.violation("%s fails on the implementation (seed %d, step %d): with source checking on, the server handed a datagram to the socket of the other address family (IPv4 destination on the IPv6 socket or the reverse): the kernel refuses it, the answer / forwarded packet is lost: %s"
+                          % (prop, r["seed"], i, r["lines"][i].split(" | st")[0][:200]), r["ops"][:i + 1], key="wrongfd")
+            bad += 1
         mine = [v for v in r["viol"] if v[0] == prop]
         if mine:
             p, i, msg = mine[0]
@@ -207,6 +216,10 @@ def model_only(chk, prop, runs=12, nsteps=300, gen_kw=None, seed_mul=15485863):
             op, rc, err = r["dead"]
             chk.violation("the server harness aborted (sanitizer or crash, rc=%s) on op: %s\n%s" % (rc, op[:200], err[-1500:]), r["ops"] + [op], key="abort:session")
             continue
+        if r.get("wrongfd") is not None and not chk.violations:
+            i = r["wrongfd"]
+            chk.violation("%s fails on the implementation (generated session, seed %d, step %d): with source checking on, the server handed a datagram to the socket of the other address family: the kernel refuses it, the answer / forwarded packet is lost: %s"
+                          % (prop, r["seed"], i, r["lines"][i].split(" | st")[0][:200]), r["ops"][:i + 1], key="wrongfd")
         d = model_diff(chk, r["ops"], r["lines"])
         if d is None:
             if not chk.violations:
